@@ -1,10 +1,129 @@
-/- driver for C10 : to be filled in (stub keeps Main.lean compiling) -/
+/- driver for C10 (termination conditions), Float instantiation of Model/Termination -/
 import MysticVerif.Basic.Proto
+import MysticVerif.Model.Termination
 
 namespace MysticVerif.DrvC10
-open MysticVerif
+open MysticVerif MysticVerif.Term
+
+/-- `eta = 1e-20` of `NormalizedChangeOverGeneration` (l.224), as the bit pattern CPython parses it to -/
+def eta : Float := Float.ofBits 4307583784117748259
+
+def optInt? : Val → Option (Option Int)
+  | .sym "none" => some none
+  | .int i => some (some i)
+  | _ => none
+
+def optFlt? : Val → Option (Option Float)
+  | .sym "none" => some none
+  | v => v.asFloat?.map some
+
+def optBool? : Val → Option (Option Bool)
+  | .sym "none" => some none
+  | v => v.asBool?.map some
+
+def parsePrim : List Val → Option (Prim Float)
+  | [.sym "vtr", tol, tgt] => do pure (.vtr (← tol.asFloat?) (← tgt.asFloat?))
+  | [.sym "cog", tol, g] => do pure (.cog (← tol.asFloat?) (← optInt? g))
+  | [.sym "ncog", tol, g] => do pure (.ncog (← tol.asFloat?) (← optInt? g) eta)
+  | [.sym "crt", xt, ft] => do pure (.crt (← xt.asFloat?) (← ft.asFloat?))
+  | [.sym "solimp", tol] => do pure (.solimp (← tol.asFloat?))
+  | [.sym "nct", fv, tol, g] => do pure (.nct (← optFlt? fv) (← tol.asFloat?) (← optInt? g))
+  | [.sym "vtrcog", ft, gt, g, tgt] => do pure (.vtrcog (← ft.asFloat?) (← gt.asFloat?) (← optInt? g) (← tgt.asFloat?))
+  | [.sym "popspread", tol] => do pure (.popspread (← tol.asFloat?))
+  | [.sym "gradnorm", tol] => do pure (.gradnorm (← tol.asFloat?))
+  | [.sym "evallimits", g, e] => do pure (.evallimits (← optInt? g) (← optInt? e))
+  | [.sym "timelimits", s, sys, s0, s1, s2] => do
+      pure (.timelimits (← s.asFloat?) (← optBool? sys) (← s0.asFloat?) (← s1.asFloat?) (← s2.asFloat?))
+  | [.sym "interrupt"] => some .interrupt
+  | _ => none
+
+partial def parseExpr : Val → Option (Expr Float)
+  | .list (.sym "p" :: o :: d :: rest) => do pure (.prim (← o.asNat?) (← d.asNat?) (← parsePrim rest))
+  | .list [.sym "when", e] => do pure (.when (← parseExpr e))
+  | .list (.sym "and" :: es) => do pure (.and (← es.mapM parseExpr))
+  | .list (.sym "or" :: es) => do pure (.or (← es.mapM parseExpr))
+  | _ => none
+
+def parseRows (v : Val) : Option (List (List Float)) := do
+  let l ← v.asList?
+  l.mapM Val.asFloats?
+
+def parseView (args : List Val) : Option (View Float) := do
+  let hist ← (kw? args "hist").bind Val.asFloats?
+  let pop ← (kw? args "pop").bind parseRows
+  let popE ← (kw? args "pope").bind Val.asFloats?
+  let best ← (kw? args "best").bind Val.asFloats?
+  let trial ← (kw? args "trial").bind parseRows
+  let trial2d ← (kw? args "trial2d").bind Val.asBool?
+  let grad ← (kw? args "grad").bind Val.asFloats?
+  let gens ← (kw? args "gens").bind Val.asInt?
+  let fcalls ← (kw? args "fcalls").bind Val.asInt?
+  let early ← (kw? args "early").bind Val.asBool?
+  let clock ← (kw? args "clock").bind Val.asFloats?
+  match clock with
+  | [t0, t1, t2] =>
+    pure { hist, pop, popE, best, trial, trial2d, grad, gens, fcalls, earlyExit := early,
+           tTime := t0, tPerf := t1, tProc := t2 }
+  | _ => none
+
+def pOut : POut → String
+  | .unsat => "unsat" | .sat => "sat" | .warn => "warn"
+
+def pErr : Err → String
+  | .index => "index" | .value => "value"
+
+/-- canonical info set: doc ids ascending, then `warn` -/
+def pAtoms (l : List Atom) : String :=
+  let ds := (l.filterMap fun | .doc d => some d | .warn => none).mergeSort (· ≤ ·)
+  let w := if l.contains .warn then ["warn"] else []
+  pL (ds.map (fun d => "d" ++ toString d) ++ w)
+
+def pIdx (l : List Nat) : String := pNs (l.mergeSort (· ≤ ·))
+
+/-- the object structure after `__new__`: class names and object ids -/
+partial def pCond : Cond Float → String
+  | .prim o _ _ => "o" ++ toString o
+  | .node k cs =>
+    let nm := match k with | .when => "when" | .and => "and" | .or => "or"
+    "(" ++ " ".intercalate (nm :: cs.map pCond) ++ ")"
+
+/-- primitives of an expression in the order written (with repetitions) -/
+partial def exprPrims : Expr Float → List (Prim Float)
+  | .prim _ _ p => [p]
+  | .when e => exprPrims e
+  | .and es => (es.map exprPrims).flatten
+  | .or es => (es.map exprPrims).flatten
 
 def handle : Handler
+  | .sym "run" :: args => Id.run do
+    let some v := parseView args | return "bad-op"
+    let some e := (kw? args "expr").bind parseExpr | return "bad-op"
+    let some rclock := (kw? args "rclock").bind Val.asFloats? | return "bad-op"
+    let (r0, r1, r2) := match rclock with
+      | [a, b, c] => (a, b, c)
+      | _ => (0.0, 0.0, 0.0)
+    let some same := (kw? args "sameclock").bind Val.asBool? | return "bad-op"
+    let c := e.build
+    let ps := exprPrims e
+    -- each primitive on its own: the exception it raises or what it returns
+    let pouts := ps.map fun p => match p.err v with
+      | some er => "err-" ++ pErr er
+      | none => pOut (p.out v)
+    -- each primitive rebuilt from its reported type and state
+    let starts : Prim Float → Float × Float × Float := fun p =>
+      match same, p with
+      | true, .timelimits _ _ s0 s1 s2 => (s0, s1, s2)   -- rebuilt at the same clock reading as the original
+      | _, _ => (r0, r1, r2)
+    let rb := ps.map fun p => match Prim.make p.kind p.state eta (starts p).1 (starts p).2.1 (starts p).2.2 with
+      | none => "none"
+      | some q => match q.err v with
+        | some er => "err-" ++ pErr er
+        | none => pOut (q.out v)
+    let built := pCond c
+    match c.firstErr v with
+    | some er => return s!"ok raised={pErr er} prims={pL pouts} rb={pL rb} built={built}"
+    | none =>
+      return s!"ok b={pB (c.evalB v)} info={pAtoms (c.info v)} self={pIdx (c.selfRes v)} not={pIdx (c.notRes v)} den={pB (e.den v)} prims={pL pouts} rb={pL rb} built={built}"
   | _ => "bad-op"
 
 end MysticVerif.DrvC10
